@@ -450,25 +450,34 @@ func isBasicNumberKind(kind reflect.Kind) bool {
 
 func convToBasicNumber(source interface{}, target reflect.Type) (interface{}, error) {
 	if v, ok := source.(*decimal.Big); ok {
-		f, _ := v.Float64()
+		// floats get the float64 nearest the decimal (the library's Float64 is not always the nearest one);
+		// integers the decimal itself truncated toward zero: its float64 image may already be the next integer
+		// (0.99999999999999999999) and is exact only up to 2^53
+		f, _ := try2Float64(v).(float64)
+		i, fits := v.Int64()
+		if !fits {
+			i = int64(f)
+		}
 		switch target.Kind() {
 		case reflect.Int8:
+			if fits {
+				return int8(i), nil
+			}
 			return int8(f), nil
 		case reflect.Int16:
+			if fits {
+				return int16(i), nil
+			}
 			return int16(f), nil
 		case reflect.Int:
-			// truncate the decimal itself: its float64 image is exact only up to 2^53
-			if i, ok := v.Int64(); ok {
-				return int(i), nil
-			}
-			return int(f), nil
+			return int(i), nil
 		case reflect.Int32:
+			if fits {
+				return int32(i), nil
+			}
 			return int32(f), nil
 		case reflect.Int64:
-			if i, ok := v.Int64(); ok {
-				return i, nil
-			}
-			return int64(f), nil
+			return i, nil
 		case reflect.Float32:
 			return float32(f), nil
 		case reflect.Float64:
